@@ -32,7 +32,7 @@ def run(tier, replay=None):
     two = [c for c in allc if len(c["hist"]) == 2]
     sim = [c for c in gen.dedupe(sim, key) if len(c["hist"]) >= 3]
     n2 = len(two)
-    b2, b3 = (2500, 1200) if tier == "quick" else (len(two), 20000)
+    b2, b3 = (2500, 1200) if tier == "quick" else (12000, 8000)
     if len(two) > b2:
         two = rnd.sample(two, b2)
     if len(sim) > b3:
